@@ -33,6 +33,64 @@ func digest(c *pb.ClientConf) string {
 	return hex.EncodeToString(h[:8])
 }
 
+// memDigest is what a reader of the in-memory state sees: the digest of the configuration returned by
+// GetClientConfPtr, provided every derived accessor (generation, keys, decoy lists by family, phantom subnets) answers
+// from that same configuration; an accessor that answers from another configuration is named in the result, which
+// then equals neither the old nor the new digest.
+func memDigest(a interface {
+	GetClientConfPtr() *pb.ClientConf
+	GetGeneration() uint32
+	GetAllDecoys() []*pb.TLSDecoySpec
+	GetV4Decoys() []*pb.TLSDecoySpec
+	GetV6Decoys() []*pb.TLSDecoySpec
+	GetPubkey() *[32]byte
+	GetConjurePubkey() *[32]byte
+	GetPhantomSubnets() *pb.PhantomSubnetsList
+}) string {
+	c := a.GetClientConfPtr()
+	d := digest(c)
+	same := func(x, y []*pb.TLSDecoySpec) bool {
+		if len(x) != len(y) {
+			return false
+		}
+		for i := range x {
+			if !proto.Equal(x[i], y[i]) {
+				return false
+			}
+		}
+		return true
+	}
+	var v4, v6 []*pb.TLSDecoySpec
+	for _, x := range c.GetDecoyList().GetTlsDecoys() {
+		if x.GetIpv4Addr() != 0 {
+			v4 = append(v4, x)
+		}
+		if x.GetIpv6Addr() != nil {
+			v6 = append(v6, x)
+		}
+	}
+	var k1, k2 [32]byte
+	copy(k1[:], c.GetDefaultPubkey().GetKey())
+	copy(k2[:], c.GetConjurePubkey().GetKey())
+	switch {
+	case a.GetGeneration() != c.GetGeneration():
+		d += "!generation"
+	case !same(a.GetAllDecoys(), c.GetDecoyList().GetTlsDecoys()):
+		d += "!all-decoys"
+	case !same(a.GetV4Decoys(), v4):
+		d += "!v4-decoys"
+	case !same(a.GetV6Decoys(), v6):
+		d += "!v6-decoys"
+	case *a.GetPubkey() != k1:
+		d += "!pubkey"
+	case *a.GetConjurePubkey() != k2:
+		d += "!conjure-pubkey"
+	case c.GetPhantomSubnetsList() != nil && !proto.Equal(a.GetPhantomSubnets(), c.GetPhantomSubnetsList()):
+		d += "!phantom-subnets"
+	}
+	return d
+}
+
 func confA() *pb.ClientConf {
 	kt := pb.KeyType_AES_GCM_128
 	return &pb.ClientConf{Generation: proto.Uint32(5), DefaultPubkey: &pb.PubKey{Key: make([]byte, 32), Type: &kt}, ConjurePubkey: &pb.PubKey{Key: make([]byte, 32), Type: &kt},
@@ -90,7 +148,10 @@ func steps() []step {
 	return []step{
 		{"SetClientConf(small)", true, func(a A) error { return a.SetClientConf(confA()) }, func(*pb.ClientConf) *pb.ClientConf { return confA() }},
 		{"SetGeneration(7)", false, func(a A) error { return a.SetGeneration(7) }, func(c *pb.ClientConf) *pb.ClientConf { c.Generation = proto.Uint32(7); return c }},
-		{"SetDecoys(3)", false, func(a A) error { return a.SetDecoys(decoys(3, "s")) }, func(c *pb.ClientConf) *pb.ClientConf { c.DecoyList = &pb.DecoyList{TlsDecoys: decoys(3, "s")}; return c }},
+		{"SetDecoys(3)", false, func(a A) error { return a.SetDecoys(decoys(3, "s")) }, func(c *pb.ClientConf) *pb.ClientConf {
+			c.DecoyList = &pb.DecoyList{TlsDecoys: decoys(3, "s")}
+			return c
+		}},
 		{"SetClientConf(4MiB)", true, func(a A) error { return a.SetClientConf(confB()) }, func(*pb.ClientConf) *pb.ClientConf { return confB() }},
 		{"SetPubkey", false, func(a A) error { return a.SetPubkey(&pb.PubKey{Key: key, Type: &kt}) }, func(c *pb.ClientConf) *pb.ClientConf { c.DefaultPubkey = &pb.PubKey{Key: key, Type: &kt}; return c }},
 		{"SetPhantomSubnets", false, func(a A) error {
@@ -166,10 +227,10 @@ func main() {
 			if only >= 0 && i > only {
 				break
 			}
-			before := digest(a.GetClientConfPtr())
+			before := memDigest(a)
 			err := s.do(a)
 			marker(fmt.Sprintf("step-%d", i+1))
-			after := digest(a.GetClientConfPtr())
+			after := memDigest(a)
 			out += fmt.Sprintf("STEP %d err=%v before=%s mem=%s whole=%v gen=%d\n", i+1, err != nil, before, after, s.whole, a.GetGeneration())
 			if err != nil && os.Getenv("VERIF_CONTINUE") == "" {
 				break
